@@ -445,24 +445,19 @@ def run_case(case):
         elif kind == 'certs':
             # COSE_Sign1 integrity blocks built by the oracle and signed under different certificates: only one issued by the trusted
             # CA that names the security source is the right key
-            from cryptography.hazmat.primitives import serialization
-            variants = sh.pki()['variants']
             for rep in range(case['reps']):
-                for vname in ('good', 'othernode', 'nosan', 'dnsonly', 'untrusted'):
-                    (cert, key) = variants[vname]
-                    bundle = base_bundle(rng, rng.choice([0, 20, 200]), next_=1, crc=rng.choice([0, 2]), seq=rep * 7 + 1)
-                    sec = dict(type=11, num=3, flags=0, crc_type=bundle['primary']['crc_type'], data=b'', crc=None)
-                    bundle['blocks'].insert(0, sec)
-                    tgt = bpv7.payload_of(bundle)
-                    scope = {0: 1, -1: 1}
-                    ext_aad = cb.external_aad(bundle, sec, tgt, scope, b'', bpv7.eid_to_item(sh.SRC_NODE))
-                    result = cb.make_sign1_result(-7, key, [cert.public_bytes(serialization.Encoding.DER)], ext_aad, tgt['data'])
-                    sec['data'] = cb.encode_asb(dict(targets=[1], context_id=3, flags=1, source=sh.SRC_NODE, params=[(5, scope)], results=[[result]]))
-                    data = bpv7.encode(bundle)
+                for vname in sh.CERT_VARIANTS:
+                    data = sh.sign1_variant_bundle(vname, rng, seq=rep * 7 + 1, plen=rng.choice([0, 20, 200]), crc=rng.choice([0, 2]))
                     verdict, why = cb.verify_bundle(data, sh.oracle_keys('all'))
                     assert (verdict == 'ok') == (vname == 'good'), (vname, verdict, why)
                     obs['certificate_variant_runs'] += 1
                     note(judge(data, 'sign1', obs, 'Sign1 BIB under certificate variant "%s"' % vname), data, vname)
+            # several signed bundles through one receiver (x5t look-up of remembered chains, validity at each bundle's creation time)
+            from vf.props import c12
+            obs12 = dict(bundles=0, expect_deliver=0, expect_fail=0)
+            for (kind2, text, detail) in c12.x5t_history('all', False, obs12):
+                violations.append(dict(key=None, what='[%s] %s' % (kind2, text), detail=detail))
+            obs['certificate_variant_runs'] += obs12['bundles']
         elif kind == 'keys':
             for cose in ('mac0-256', 'sign1'):
                 bundle = base_bundle(rng, 40, next_=1, crc=2, seq=7)
